@@ -920,7 +920,11 @@ def check_parallel_sort(prog, rep):
             for nm in via:
                 txt += ' | ' + ' | '.join(unparse(d) for d in defs[nm])
             n += 1
-            ok = ('argsort(axes_b' in txt or 'sorted(' in txt)
+            exprs = [v] + [d for nm in via for d in defs[nm]]
+            ok = any(isinstance(c, ast.Call) and (unparse(c.func).endswith('argsort') or
+                                                  unparse(c.func) == 'sorted') and
+                     'axes_b' in {x for a_ in c.args for x in names_in(a_)}
+                     for e_ in exprs for c in ast.walk(e_))
             rep.instance('AXES-parallel-sort', {'function': qn, 'statement': key_text(st)[:80],
                                                 'ok': ok})
             if not ok:
